@@ -168,7 +168,7 @@ func (p *Path) zero(t types.Type) Value {
 			return Float{0}
 		case u.Kind() == types.UnsafePointer:
 			return Ptr(nil)
-		case u.Kind() == types.UntypedNil:
+		case u.Kind() == types.UntypedNil, u.Kind() == types.Invalid:
 			return nil
 		}
 		panic(p.unsupported("zero of basic " + u.String()))
@@ -291,7 +291,7 @@ func (p *Path) equal(x, y Value) *Term {
 	case *Term:
 		return tb.Eq(x, y.(*Term))
 	case Big:
-		return tb.Eq(x.t, y.(Big).t)
+		return tb.Eq(p.bigInt(x), p.bigInt(y.(Big)))
 	case EC:
 		return tb.Eq(x.t, y.(EC).t)
 	case Float:
